@@ -12,6 +12,8 @@
     the clean-up chain (fall-through), and the function returns;
   * `chain`: the labelled clean-up code in textual order;
   * `done`: what happens after the last step (the success response);
+  * `pre`, `preLinks`: objects (and links) that already exist on entry and that the function itself
+    releases or relinks (empty for most ladders);
   * `intended`, `intendedLinks`: what a successful run leaves behind (newest first).
 
   Actions work on an abstract resource state: `held` (allocated objects, armed timers, open
@@ -62,6 +64,8 @@ structure Ladder (R Lb : Type) where
   steps : List (Step R Lb)
   chain : List (Lb × List (Act R)) := []
   done : List (Act R) := []
+  pre : List R := []                     -- objects that exist when the function is entered …
+  preLinks : List (R × R) := []          -- … and links between them (only for ladders that touch them)
   intended : List R := []
   intendedLinks : List (R × R) := []
 
@@ -96,12 +100,15 @@ def failsAt (L : Ladder R Lb) : Option Nat → Bool
     | some st => st.canFail
     | none => false
 
-/-! ## the finite audit of one ladder (from the empty state) -/
+/-! ## the finite audit of one ladder (from its entry state) -/
+
+/-- the state on entry: what the ladder declares as pre-existing, nothing else -/
+def entry (L : Ladder R Lb) : St R := ⟨L.pre, L.preLinks, 0, 0⟩
 
 def auditOne (L : Ladder R Lb) (fail : Option Nat) : Bool :=
-  let s := runLadder L fail {}
+  let s := runLadder L fail (entry L)
   decide (s.bad = 0) && decide (s.responses ≤ 1) &&
-  (if failsAt L fail then decide (s.held = []) && decide (s.links = [])
+  (if failsAt L fail then decide (s.held = L.pre) && decide (s.links = L.preLinks)
    else decide (s.held = L.intended) && decide (s.links = L.intendedLinks) &&
         L.intendedLinks.all (fun p => decide (p.2 ∈ L.intended)))
 
